@@ -141,15 +141,23 @@ def check(ctx):
               "transition ends evaluation for the tick")
     fp = ctx.fn("framing", "Frame.precur")
     P = FuncView(ctx, fp)
-    lp = P.need(_framing.loops_over(P, "self.preacts"), "preacts loop")
-    t = P.need(P.tests(lambda t: isinstance(t, ast.Call) and dotted(t.func) == "act"), "`if act():`")
     rets = [n for n in P.cfg.nodes if n.kind == "return"]
-    ok = any(P.dominated_by_edge([r], t[0], "T") and isinstance(r.ast.value, ast.Constant) and r.ast.value.value is True for r in rets)
-    ok = ok and _framing.every_iteration_passes(P, lp[0], t) and not P.call_nodes(("reversed", "reverse", "sorted"))
+    lp = _framing.loops_over(P, "self.preacts")
+    if not lp and len(rets) == 1 and isinstance(rets[0].ast.value, ast.Call) and call_name(rets[0].ast.value) == "any" \
+            and len(rets[0].ast.value.args) == 1 and isinstance(rets[0].ast.value.args[0], ast.GeneratorExp):
+        # `return any(act() for act in self.preacts)`: a generator (not a list) keeps the short circuit and the order
+        g = rets[0].ast.value.args[0]
+        ok = len(g.generators) == 1 and src(g.generators[0].iter) == "self.preacts" and not g.generators[0].ifs and \
+            isinstance(g.elt, ast.Call) and dotted(g.elt.func) == dotted(g.generators[0].target) and not g.elt.args
+    else:
+        lp = P.need(lp, "preacts loop")
+        t = P.need(P.tests(lambda t: isinstance(t, ast.Call) and dotted(t.func) == "act"), "`if act():`")
+        ok = any(P.dominated_by_edge([r], t[0], "T") and isinstance(r.ast.value, ast.Constant) and r.ast.value.value is True for r in rets)
+        ok = ok and _framing.every_iteration_passes(P, lp[0], t) and not P.call_nodes(("reversed", "reverse", "sorted"))
     ctx.check(ok, "T3-firstwins", fp, "precur: for act in preacts: if act(): return True", "preacts run in script order; first truthy interrupts")
     ta = ctx.fn("acting", "Transiter.action")
     T = FuncView(ctx, ta)
-    nt = T.need(T.tests(lambda t: isinstance(t, ast.UnaryOp) and isinstance(t.operand, ast.Call) and dotted(t.operand.func) == "act"),
+    nt = T.need(_framing.need_tests(T),
                 "`if not act():` in needs loop")
     rets = [n for n in T.cfg.nodes if n.kind == "return" and T.dominated_by_edge([n], nt[0], "T")]
     ok = bool(rets) and all(r.ast.value is None or (isinstance(r.ast.value, ast.Constant) and r.ast.value.value is None) for r in rets)
